@@ -3,6 +3,7 @@
    which frame of every substream, wherever the substream currently is. *)
 From Coq Require Import List NArith Bool Lia.
 From V.C12 Require Import Start.
+From V.gen Require C12Tables.
 Import ListNotations.
 Open Scope N_scope.
 
@@ -1056,3 +1057,21 @@ Lemma stale_out_repaired :
   map (fun t => (s_out (t_out t), s_hs (t_out t))) (tasks (final true false w_stale_out)) = [([LOCAL_HS; 9], [201])] /\
   In (UOpened 0 true 201) (user_events true w_stale_out).
 Proof. vm_compute. split; [reflexivity|tauto]. Qed.
+
+(* ------------------------------------------------------------------ the orders and mappings the models hard-wire *)
+(* coq/gen/C12Tables.v is extracted from the Rust source on every check (tools/gen_c12_tables.py). The models are
+   written for exactly these values: Start.poll tries the branches of next_event in this order because the select! is
+   biased; Model.conn_loop / Start.task_loop run the stages of Connection::poll_next in this order; close / close_step
+   follow close_connection; the handles look at their event channel first; a full sync queue is ChannelClogged and a
+   closed one NoConnection (try_send: never waits), the asynchronous send waits (send); every call of the
+   HandshakeService that touches a key forgets what was queued for it. *)
+Lemma tables_in_sync :
+  C12Tables.select_biased = true /\ C12Tables.select_order = [1; 2; 3; 4; 5; 6] /\
+  C12Tables.conn_poll_order = [1; 2; 3; 4; 5] /\ C12Tables.close_order = [1; 2; 3; 4; 5] /\
+  C12Tables.handle_order = [1; 2] /\
+  C12Tables.notification_errors = 6 /\ C12Tables.sync_closed_maps_to = 1 /\ C12Tables.sync_full_maps_to = 2 /\
+  C12Tables.sync_uses_try_send = true /\ C12Tables.async_uses_send = true /\
+  C12Tables.forget_sites = [true; true; true; true; true] /\
+  1 <= C12Tables.C12_SYNC_CHANNEL_SIZE /\ 1 <= C12Tables.C12_ASYNC_CHANNEL_SIZE /\
+  1 <= C12Tables.C12_NEGOTIATION_TIMEOUT_SECS.
+Proof. repeat split; try reflexivity; vm_compute; discriminate. Qed.
